@@ -6,7 +6,6 @@ import (
 	"encoding/json"
 	"flag"
 	"fmt"
-	"strings"
 	"sync"
 	"sync/atomic"
 	"time"
@@ -29,6 +28,7 @@ type step struct {
 	Quiet  bool   `json:"quiet"`
 	Out    string `json:"out"`
 	MayErr bool   `json:"mayErr"`
+	Ask    bool   `json:"ask"`
 }
 
 type reqObs struct {
@@ -41,29 +41,99 @@ type reqObs struct {
 }
 
 type result struct {
-	ID         int      `json:"id"`
-	Reqs       []reqObs `json:"reqs"`
-	Bad        []string `json:"bad"`        // violations of ErrorsOnlyWhileDown / no reply
-	HealOK     bool     `json:"healOK"`     // after the history, with the backend up, requests succeed again
-	HealText   string   `json:"healText"`
-	HealTries  int      `json:"healTries"`
-	NewConn    bool     `json:"newConn"`    // the healed request went over a connection accepted after the last fault
-	ConnsAtEnd int      `json:"connsAtEnd"` // open backend connections after quiescence (NoOrphanClient: <= 1)
-	ConnsAfterStop int  `json:"connsAfterStop"`
-	StopOK     bool     `json:"stopOK"`
-	Faults     int      `json:"faults"`
-	Err        string   `json:"err,omitempty"`
+	ID             int      `json:"id"`
+	Reqs           []reqObs `json:"reqs"`
+	Bad            []string `json:"bad"`    // violations of ErrorsOnlyWhileDown / no reply
+	HealOK         bool     `json:"healOK"` // after the history, with the backend up, requests succeed again
+	HealText       string   `json:"healText"`
+	HealTries      int      `json:"healTries"`
+	NewConn        bool     `json:"newConn"`    // the healed request went over a connection accepted after the last fault
+	ConnsAtEnd     int      `json:"connsAtEnd"` // open backend connections after quiescence (NoOrphanClient: <= 1)
+	ConnsAfterStop int      `json:"connsAfterStop"`
+	StopOK         bool     `json:"stopOK"`
+	Faults         int      `json:"faults"`
+	Stalls         int      `json:"stalls"`      // times the in-flight queue of the backend connection was filled (1024 unanswered)
+	HeldAtFault    bool     `json:"heldAtFault"` // a fault hit while the writer waited at a hand-over with a request in hand
+	FillerSent     int      `json:"fillerSent"`  // requests of other sessions used to fill the queue
+	FillerAnswered int      `json:"fillerAnswered"`
+	ResetHung      bool     `json:"resetHung"` // OnSvcAllHostReplace did not return within 5 s
+	Err            string   `json:"err,omitempty"`
 }
+
+// Several histories are replayed at the same time (each on its own cluster and processor); the one process-wide
+// hook dispatches to the handler of every running replay, which picks its own events by the backend address.
+var (
+	hookMu   sync.RWMutex
+	hookSeq  int
+	hookSubs = map[int]verifhook.Func{}
+)
+
+// startMu serialises the allocation of ports (cluster listeners, sut.FreePort + bind of the processor) between the
+// histories replayed at the same time: a port picked by FreePort must be bound before anybody else looks for one.
+var startMu sync.Mutex
+
+func hookAdd(f verifhook.Func) (remove func()) {
+	hookMu.Lock()
+	hookSeq++
+	id := hookSeq
+	hookSubs[id] = f
+	hookMu.Unlock()
+	return func() {
+		hookMu.Lock()
+		delete(hookSubs, id)
+		hookMu.Unlock()
+	}
+}
+
+func hookDispatch(point string, a, b interface{}) {
+	if point != "client.Start.drained" && point != "client.loopWrite.got" {
+		return
+	}
+	hookMu.RLock()
+	for _, f := range hookSubs {
+		f(point, a, b)
+	}
+	hookMu.RUnlock()
+}
+
+// fillers: the traffic of other sessions that fills the in-flight queue of a stalled backend connection
+const (
+	fillConns   = 32
+	fillPerConn = 32                      // a session keeps at most 33 requests in flight
+	inflightCap = fillConns * fillPerConn // = cap(client.processingReqs) = 1024
+)
 
 func replayOne(id int, steps []step) (res result) {
 	res = result{ID: id}
-	cl, err := simredis.NewCluster(1, 0)
+	// a second master is needed as the source of ASK redirections (and as the only seed, so that the refresher
+	// never talks to the stalled node) when the history stalls the backend or contains asking requests
+	two := false
+	for _, s := range steps {
+		if s.A == "Stall" || (s.A == "Issue" && s.Ask) {
+			two = true
+		}
+	}
+	masters := 1
+	if two {
+		masters = 2
+	}
+	startMu.Lock()
+	locked := true
+	unlock := func() {
+		if locked {
+			locked = false
+			startMu.Unlock()
+		}
+	}
+	defer unlock()
+	cl, err := simredis.NewCluster(masters, 0)
 	if err != nil {
 		res.Err = err.Error()
 		return
 	}
 	defer cl.Close()
-	node := cl.Nodes[0]
+	node := cl.Nodes[masters-1] // the backend of the model
+	seed := cl.Nodes[0]
 	// initial reachability = the "up" of the first Issue before any BackendDown/Up
 	up := true
 	for _, s := range steps {
@@ -83,20 +153,42 @@ func replayOne(id int, steps []step) (res result) {
 	if !up {
 		node.Shutdown()
 	}
-	var drained int64
-	verifhook.Set(func(point string, a, b interface{}) {
-		if point == "client.Start.drained" {
-			atomic.AddInt64(&drained, 1)
+	var drained, got int64
+	var cur atomic.Value // the newest client object of the node (for VerifClientStateOf)
+	unhook := hookAdd(func(point string, a, b interface{}) {
+		switch point {
+		case "client.Start.drained":
+			if predis.VerifDescribe(a).Addr == node.Addr {
+				atomic.AddInt64(&drained, 1)
+			}
+		case "client.loopWrite.got":
+			if predis.VerifDescribe(a).Addr == node.Addr {
+				cur.Store(a)
+				atomic.AddInt64(&got, 1)
+			}
 		}
 	})
-	defer verifhook.Set(nil)
-	px, err := sut.StartRedis(sut.RedisOpts{ConnectTO: 300 * time.Millisecond}, []string{node.Addr})
+	defer unhook()
+	px, err := sut.StartRedis(sut.RedisOpts{ConnectTO: 300 * time.Millisecond}, []string{seed.Addr})
+	unlock()
 	if err != nil {
 		res.Err = "start: " + err.Error()
 		return
 	}
-	if up {
+	if up || two {
 		sut.WaitRefresh(px.Name, 2*time.Second)
+	}
+	keyOf := func(r int, ask bool) string {
+		if !two {
+			return fmt.Sprintf("k%d", r)
+		}
+		if ask {
+			// a key of a slot that migrates from the seed to the node and is not (no longer) on the seed: ASK
+			k := cl.KeyFor(0, fmt.Sprintf("ask%d-", r))
+			cl.SetMigrating(simredis.Slot([]byte(k)), 0, 1)
+			return k
+		}
+		return cl.KeyFor(1, fmt.Sprintf("k%d-", r))
 	}
 	var lost int64 // backend connections the faults so far have taken away: each one's client must drain and remove itself
 	settle := func() {
@@ -115,6 +207,69 @@ func replayOne(id int, steps []step) (res result) {
 	pend := map[int]*pending{}
 	var mu sync.Mutex
 	lastFaultAccepts := 0
+	// stall state
+	stalled, held := false, false
+	var fillers []*sut.Client
+	var fillWG sync.WaitGroup
+	var fillAnswered int64
+	defer func() {
+		for _, c := range fillers {
+			c.Close()
+		}
+	}()
+	stall := func() error {
+		node.SetGate(true)
+		key := cl.KeyFor(masters-1, "fill-")
+		for i := 0; i < fillConns; i++ {
+			c, err := sut.Dial(px.Addr)
+			if err != nil {
+				return err
+			}
+			fillers = append(fillers, c)
+			for k := 0; k < fillPerConn; k++ {
+				if err := c.SendCmd("get", key); err != nil {
+					return err
+				}
+				res.FillerSent++
+			}
+			fillWG.Add(1)
+			go func(c *sut.Client) {
+				defer fillWG.Done()
+				for k := 0; k < fillPerConn; k++ {
+					if _, err := c.Recv(8 * time.Second); err != nil {
+						return
+					}
+					atomic.AddInt64(&fillAnswered, 1)
+				}
+			}(c)
+		}
+		dl := time.Now().Add(5 * time.Second)
+		for time.Now().Before(dl) {
+			if o := cur.Load(); o != nil {
+				if st, ok := predis.VerifClientStateOf(o); ok && st.Processing == inflightCap && st.Pending == 0 {
+					return nil
+				}
+			}
+			time.Sleep(time.Millisecond)
+		}
+		st, _ := predis.VerifClientStateOf(cur.Load())
+		return fmt.Errorf("in-flight queue did not fill: %+v", st)
+	}
+	// a fault ends the stall of the lost connection; the simulated node must not hold back what the proxy sends over
+	// its NEW connection
+	fault := func(f func()) {
+		res.Faults++
+		atomic.StoreInt64(&lost, int64(node.AcceptCount()))
+		if stalled && held {
+			res.HeldAtFault = true
+		}
+		f()
+		if stalled {
+			node.SetGate(false)
+			stalled, held = false, false
+		}
+		lastFaultAccepts = node.AcceptCount()
+	}
 	for i, s := range steps {
 		switch s.A {
 		case "Issue":
@@ -123,6 +278,8 @@ func replayOne(id int, steps []step) (res result) {
 			}
 			p := &pending{done: make(chan struct{})}
 			pend[s.R] = p
+			g0 := atomic.LoadInt64(&got)
+			key := keyOf(s.R, s.Ask)
 			go func(r int) {
 				defer close(p.done)
 				c, err := sut.Dial(px.Addr)
@@ -133,7 +290,7 @@ func replayOne(id int, steps []step) (res result) {
 					return
 				}
 				defer c.Close()
-				v, err := c.Do(5*time.Second, "get", fmt.Sprintf("k%d", r))
+				v, err := c.Do(5*time.Second, "get", key)
 				mu.Lock()
 				defer mu.Unlock()
 				if err != nil {
@@ -144,10 +301,21 @@ func replayOne(id int, steps []step) (res result) {
 					p.obs = reqObs{R: r, Got: "ok", Text: v.String(), Accepts: node.AcceptCount()}
 				}
 			}(s.R)
-			// a request whose life overlaps no fault in the model is completed before the next event
-			if i+1 < len(steps) && steps[i+1].A == "Done" && steps[i+1].R == s.R {
+			switch {
+			case stalled && !held:
+				// the writer of the stalled connection takes the request and waits at the hand-over
+				dl := time.Now().Add(time.Second)
+				for time.Now().Before(dl) && atomic.LoadInt64(&got) == g0 {
+					time.Sleep(200 * time.Microsecond)
+				}
+				held = atomic.LoadInt64(&got) > g0
+				time.Sleep(3 * time.Millisecond)
+			case stalled:
+				time.Sleep(3 * time.Millisecond)
+			case i+1 < len(steps) && steps[i+1].A == "Done" && steps[i+1].R == s.R:
+				// a request whose life overlaps no fault in the model is completed before the next event
 				<-p.done
-			} else {
+			default:
 				time.Sleep(300 * time.Microsecond)
 			}
 		case "Done":
@@ -167,27 +335,44 @@ func replayOne(id int, steps []step) (res result) {
 			case o.Got == "err" && !s.MayErr:
 				res.Bad = append(res.Bad, fmt.Sprintf("request %d got %s although the backend was reachable during its whole life", s.R, o.Text))
 			}
+		case "Stall":
+			if err := stall(); err != nil {
+				res.Err = "stall: " + err.Error()
+				node.SetGate(false)
+				return
+			}
+			stalled, held = true, false
+			res.Stalls++
+		case "Unstall":
+			node.SetGate(false)
+			stalled, held = false, false
 		case "ConnLost":
-			res.Faults++
-			atomic.AddInt64(&lost, int64(node.ConnCount()))
-			node.ResetConns(true)
-			lastFaultAccepts = node.AcceptCount()
+			fault(func() { node.ResetConns(true) })
 		case "BackendDown":
-			res.Faults++
-			atomic.AddInt64(&lost, int64(node.ConnCount()))
-			node.Shutdown()
-			lastFaultAccepts = node.AcceptCount()
+			fault(func() { node.Shutdown() })
 		case "BackendUp":
 			if err := node.Restart(); err != nil {
 				res.Err = "restart: " + err.Error()
 				return
 			}
 		case "ResetAll":
-			res.Faults++
-			atomic.AddInt64(&lost, int64(node.ConnCount()))
-			px.P.OnSvcAllHostReplace([]*host.Host{host.New(node.Addr)})
-			lastFaultAccepts = node.AcceptCount()
+			fault(func() {
+				// resetAllClients stops the old clients: bounded here, a Stop that hangs must not hang the replay
+				done := make(chan struct{})
+				go func() {
+					px.P.OnSvcAllHostReplace([]*host.Host{host.New(seed.Addr)})
+					close(done)
+				}()
+				select {
+				case <-done:
+				case <-time.After(5 * time.Second):
+					res.ResetHung = true
+				}
+			})
 		}
+	}
+	if stalled {
+		node.SetGate(false)
 	}
 	for _, p := range pend {
 		<-p.done
@@ -197,11 +382,15 @@ func replayOne(id int, steps []step) (res result) {
 		node.Restart()
 	}
 	settle()
+	healKey := "heal"
+	if two {
+		healKey = cl.KeyFor(1, "heal-")
+	}
 	c, err := sut.Dial(px.Addr)
 	if err == nil {
 		for try := 1; try <= 3; try++ {
 			res.HealTries = try
-			v, err := c.Do(5*time.Second, "get", "heal")
+			v, err := c.Do(5*time.Second, "get", healKey)
 			if err != nil {
 				res.HealText = err.Error()
 				break
@@ -218,12 +407,30 @@ func replayOne(id int, steps []step) (res result) {
 		res.HealText = "dial: " + err.Error()
 	}
 	res.NewConn = res.Faults == 0 || node.AcceptCount() > lastFaultAccepts || node.ConnCount() > 0
+	if res.FillerSent > 0 {
+		// the requests of the other sessions: answered by the backend (stall over) or by the drain of the lost connection
+		fd := make(chan struct{})
+		go func() { fillWG.Wait(); close(fd) }()
+		select {
+		case <-fd:
+		case <-time.After(2 * time.Second):
+		}
+		res.FillerAnswered = int(atomic.LoadInt64(&fillAnswered))
+	}
+	// a leaked connection stays for ever, a closing one is dropped from the node's set as soon as its goroutine runs:
+	// generous deadlines (loaded machine), the counts are read when they have settled or the deadline has passed
+	settleConns := func(max int, d time.Duration) int {
+		dl := time.Now().Add(d)
+		for time.Now().Before(dl) && node.ConnCount() > max {
+			time.Sleep(2 * time.Millisecond)
+		}
+		return node.ConnCount()
+	}
 	time.Sleep(30 * time.Millisecond)
-	res.ConnsAtEnd = node.ConnCount()
+	res.ConnsAtEnd = settleConns(1, 2*time.Second)
 	res.StopOK = sut.StopWithin(px.P, 5*time.Second)
 	time.Sleep(20 * time.Millisecond)
-	res.ConnsAfterStop = node.ConnCount()
-	_ = strings.TrimSpace
+	res.ConnsAfterStop = settleConns(0, 2*time.Second)
 	return
 }
 
@@ -231,24 +438,64 @@ func replay(args []string) error {
 	fs := flag.NewFlagSet("c07-replay", flag.ContinueOnError)
 	in := fs.String("in", "", "behaviours (ndjson)")
 	out := fs.String("out", "", "results (ndjson)")
+	par := fs.Int("par", 4, "histories replayed at the same time")
 	if err := fs.Parse(args); err != nil {
 		return err
 	}
 	predis.VerifSetSlotsRefreshTimers(time.Hour, 20*time.Millisecond)
+	verifhook.Set(hookDispatch)
+	defer verifhook.Set(nil)
 	w, err := cli.NewNDJSONWriter(*out)
 	if err != nil {
 		return err
 	}
 	defer w.Close()
-	id := 0
-	return cli.ReadNDJSON(*in, func(line []byte) error {
+	var all [][]step
+	if err := cli.ReadNDJSON(*in, func(line []byte) error {
 		var steps []step
 		if err := json.Unmarshal(line, &steps); err != nil {
 			return err
 		}
-		id++
-		return w.Write(replayOne(id, steps))
-	})
+		all = append(all, steps)
+		return nil
+	}); err != nil {
+		return err
+	}
+	// results are written in input order, as soon as every earlier one is there
+	results := make([]*result, len(all))
+	var mu sync.Mutex
+	next := 0
+	var werr error
+	jobs := make(chan int)
+	var wg sync.WaitGroup
+	for k := 0; k < *par; k++ {
+		wg.Add(1)
+		go func() {
+			defer wg.Done()
+			for i := range jobs {
+				r := replayOne(i+1, all[i])
+				if r.Err != "" {
+					// infrastructure trouble (port, start, queue not filled in time): once more
+					r = replayOne(i+1, all[i])
+				}
+				mu.Lock()
+				results[i] = &r
+				for next < len(results) && results[next] != nil {
+					if err := w.Write(results[next]); err != nil && werr == nil {
+						werr = err
+					}
+					next++
+				}
+				mu.Unlock()
+			}
+		}()
+	}
+	for i := range all {
+		jobs <- i
+	}
+	close(jobs)
+	wg.Wait()
+	return werr
 }
 
 // ---- several backends lose their connections at the same instant
